@@ -8,6 +8,8 @@ R15.2 liveness at pop: in walk() every value popped from the walk stack, and eve
       non-None (truth-tested / isinstance-tested on that path) before any attribute access on it.
 R15.3 detached means dead: _unmake_fst_tree clears both links (`f.a = a.f = None`) and descends into every child list that
       can hold nodes, including lists whose first element is None (grammar: `expr?*`).
+R15.4 replace means unmake: _set_field / _set_ast overwrite the old value only after _unmake_fst_tree() when `unmake` is requested,
+      on every path (also when a field is being cleared).
 Not decided: termination, no duplicate entry, "new children are walked next" for all interleavings (needs state exploration).
 """
 from __future__ import annotations
@@ -52,7 +54,12 @@ def ast_sources(fn):
                 while isinstance(root, (ast.Attribute, ast.Subscript)):
                     root = root.value
                 derived = isinstance(root, ast.Name) and root.id in tracked and isinstance(v, (ast.Attribute, ast.Subscript)) and \
-                    not (isinstance(v, ast.Attribute) and v.attr in ('f', '__class__'))
+                    not (isinstance(v, ast.Attribute) and v.attr in ('f',))
+                # data looked up *by* something read from the node (`TABLE.get(ast.__class__)`, `func(ast.x)`): describes the node as it was
+                if not derived and not is_a and isinstance(v, (ast.Call, ast.IfExp)):
+                    derived = any(isinstance(y, ast.Attribute) and isinstance(y.value, ast.Name) and y.value.id in tracked and y.attr != 'f'
+                                  for y in ast.walk(v)) and not any(isinstance(y, ast.Call) and isinstance(y.func, ast.Attribute) and y.func.attr in ('walk',)
+                                                                    for y in ast.walk(v))
                 if (is_a or derived) and t.id not in tracked:
                     tracked.add(t.id)
                     changed = True
@@ -252,3 +259,46 @@ def run(ctx):
                   f'{opt_lists[:2]} may start with None and their nodes would stay marked alive after removal', fi.lineno)
     # every removal path unmakes: functions that delete from a child list of self must call _unmake_fst_tree / _set_field / _set_ast
     # (decided under C02 R2.2)
+
+
+
+# ---- R15.4 -----------------------------------------------------------------------------------------------------------
+    check_replace_unmakes(ctx)
+
+
+def check_replace_unmakes(ctx):
+    """The link kernel (_set_field, _set_ast) overwrites what a node holds.  With `unmake` requested (the default) the replaced tree must be
+    marked dead on *every* path that reaches the overwrite, also when the new value is None (deleting a field): a detached node that keeps
+    its links passes walk()'s liveness tests and is yielded although it is no longer part of the tree."""
+    from ..cfg import CFG, subnodes
+    ctx.rule('R15.4', 'in _set_field / _set_ast every path that overwrites the old value under `unmake` passes _unmake_fst_tree()', 2)
+    for q in ('_set_field', '_set_ast'):
+        for fi in ctx.repo.funcs('fst_core', q):
+            if 'unmake' not in fi.params():
+                raise AnalysisError(f'{q}: parameter `unmake` vanished')
+            cfg = CFG(fi.node)
+            unmakes, writes = set(), []
+            for nd in cfg.nodes:
+                for x in subnodes(cfg, nd):
+                    if isinstance(x, ast.Call) and call_name(x) == '_unmake_fst_tree':
+                        unmakes.add(nd.id)
+                    if isinstance(x, ast.Call) and call_name(x) == 'setattr' and len(x.args) == 3:
+                        writes.append((nd, x))
+                    if isinstance(x, ast.Assign) and any(isinstance(t, ast.Attribute) and t.attr == 'a' and norm(t.value) == 'self' for t in x.targets):
+                        writes.append((nd, x))
+            if not writes:
+                raise AnalysisError(f'{q}: the overwrite of the old value was not found')
+
+            def edge_ok(n_, lab, s_):
+                if lab == 'exc':
+                    return False
+                t = n_.ast if n_.kind == 'test' and isinstance(n_.ast, ast.expr) else None
+                if isinstance(t, ast.Name) and t.id == 'unmake' and lab == 'false':
+                    return False            # specialised for unmake=True
+                return True
+            reach = cfg.reachable(cfg.entry, edge_ok, stop=unmakes)
+            for nd, x in writes:
+                ctx.check('R15.4', nd.id not in reach or nd.id in unmakes, fi.module, fi.qualname, norm(x, 60),
+                          'the old value is overwritten on a path that skipped _unmake_fst_tree() although `unmake` was requested: the replaced '
+                          'node keeps `a.f` / `f.a` and still looks alive to a walk that holds it', x.lineno,
+                          sample={'function': fi.key, 'write': norm(x, 60)})
